@@ -2264,7 +2264,7 @@ func AtomCodes(vm *VM, atom, codes Term, k Cont, env *Env) *Promise {
 			case Variable:
 				return Error(InstantiationError(env))
 			case Integer:
-				if e < 0 || e > unicode.MaxRune {
+				if e < 0 || e > unicode.MaxRune || !utf8.ValidRune(rune(e)) {
 					return Error(representationError(flagCharacterCode, env))
 				}
 				_, _ = sb.WriteRune(rune(e))
